@@ -17,7 +17,8 @@
 (*                                                                         *)
 (* Total: every event is consumed.  An event no action explains is a       *)
 (* violation unless a deviation listed in KnownDeviations explains it:     *)
-(*   structure-level deviations (F03a b d e f) have a guard on the header  *)
+(*   structure-level deviations (F03a b d e f h i) have a guard on the      *)
+(*   header                                                                *)
 (*   only - the structure that was built is unusable, every event of the   *)
 (*   run that does not conform is attributed to them;                      *)
 (*   flavour-level deviations (F03c, F03g) name the flavours, the keys and *)
@@ -64,9 +65,15 @@ G_F03f(h) == /\ h.kind = "tvfs"
 \* F03g: ContentResolver::resolve_path hashes the path as given, the root builder hashes the normalised path
 G_F03g(h) == h.kind \in {"root", "chain"} /\ h.style = "raw"
 
-StructDevs == <<"F03a", "F03b", "F03d", "F03e", "F03f">>
+\* F03h: EncodingBuilder accepts a content-key record that does not fit a page and writes a file the parser rejects
+G_F03h(h) == h.kind = "enc" /\ ~Representable(h)
+\* F03i: ArchiveIndexBuilder stores an offset that does not fit offset_bytes cut down to the field width
+G_F03i(h) == h.kind = "aidx" /\ ~Representable(h)
+
+StructDevs == <<"F03a", "F03b", "F03d", "F03e", "F03f", "F03h", "F03i">>
 StructGuard(f, h) == CASE f = "F03a" -> G_F03a(h) [] f = "F03b" -> G_F03b(h) [] f = "F03d" -> G_F03d(h)
-                       [] f = "F03e" -> G_F03e(h) [] OTHER -> G_F03f(h)
+                       [] f = "F03e" -> G_F03e(h) [] f = "F03f" -> G_F03f(h) [] f = "F03h" -> G_F03h(h)
+                       [] OTHER -> G_F03i(h)
 \* the structure-level deviation that applies to this run ("" if none)
 StructDev(h) == LET S == {i \in 1..Len(StructDevs) : Known(StructDevs[i]) /\ StructGuard(StructDevs[i], h)}
                 IN IF S = {} THEN "" ELSE StructDevs[CHOOSE i \in S : \A j \in S : i <= j]
@@ -88,8 +95,9 @@ FlavourDev(h, e, bad) ==
   ELSE ""
 
 BuildConforms(h, e) ==
-  \/ e.res.ok = TRUE /\ e.res.count = ExpectCount(h)
-  \/ e.res.ok = FALSE /\ RefusalAllowed(h)
+  IF ~Representable(h) THEN e.res.ok = FALSE /\ e.res.stage = "build"      \* refused by the builder, nothing written
+  ELSE \/ e.res.ok = TRUE /\ e.res.count = ExpectCount(h)
+       \/ e.res.ok = FALSE /\ RefusalAllowed(h)
 BuildByF03c(h, e) == /\ Known("F03c") /\ G_F03c(h) /\ e.res.ok = TRUE
                      /\ e.res.count = h.n * 100000 + (h.m - LostByF03c(h))
 
